@@ -608,6 +608,8 @@ fn build_tera() -> Tera {
         ("url", "{{ s | urlencode }}"),
         ("url_strict", "{{ s | urlencode_strict }}"),
         ("slug", "{{ s | slug }}"),
+        ("jsons/default", "{{ s | json_encode }}"),
+        ("jsons/pretty", "{{ s | json_encode(pretty=true) }}"),
         ("json/default", "{{ v | json_encode }}"),
         ("json/pretty", "{{ v | json_encode(pretty=true) }}"),
         ("json/compact", "{{ v | json_encode(pretty=false) }}"),
@@ -635,6 +637,8 @@ fn source_of(name: &str) -> String {
         ["url"] => "{{ s | urlencode }}".into(),
         ["url_strict"] => "{{ s | urlencode_strict }}".into(),
         ["slug"] => "{{ s | slug }}".into(),
+        ["jsons", "default"] => "{{ s | json_encode }}".into(),
+        ["jsons", "pretty"] => "{{ s | json_encode(pretty=true) }}".into(),
         ["json", "default"] => "{{ v | json_encode }}".into(),
         ["json", "pretty"] => "{{ v | json_encode(pretty=true) }}".into(),
         ["json", "compact"] => "{{ v | json_encode(pretty=false) }}".into(),
@@ -668,6 +672,31 @@ fn judge_string(tera: &Tera, s: &str, acc: &mut Acc, sample: bool) {
     ctx.insert_value("s", tera::Value::normal_string(s));
     let case = |tpl: &str| json!({"template": source_of(tpl), "s": s, "s_debug": format!("{s:?}")});
     let nonempty = !s.is_empty();
+
+    // ---- json_encode of the bare string (every string of the enumeration, so every control
+    // character, quote and backslash in every short context; seeded change C20-5: a shortcut for
+    // top-level strings that forgot the control characters)
+    for name in ["jsons/default", "jsons/pretty"] {
+        let out = engine::render(tera, name, &ctx);
+        let class = match &out {
+            Out::Ok(text) => match parse_json(text) {
+                Ok(J::Str(back)) if back == s => "json-string:ok",
+                Ok(_) => {
+                    acc.violation("json-string-mismatch", format!("json_encode gave {text:?}, which does not decode to the input string"), || case(name));
+                    "json-string:MISMATCH"
+                }
+                Err(why) => {
+                    acc.violation("json-string-invalid", format!("json_encode gave {text:?}, not valid JSON ({why})"), || case(name));
+                    "json-string:INVALID"
+                }
+            },
+            other => {
+                acc.violation(format!("json-string-{}", other.class()), format!("json_encode of a string gave {}", other.show()), || case(name));
+                "json-string:not-ok"
+            }
+        };
+        acc.case(nonempty, class);
+    }
 
     // ---- base64
     for u in [false, true] {
